@@ -26,6 +26,7 @@ pdu.netifaces = None            # interface-name notations are outside the prope
 TYPES = {Address.localBroadcastAddr: "lb", Address.localStationAddr: "ls", Address.remoteBroadcastAddr: "rb",
          Address.remoteStationAddr: "rs", Address.globalBroadcastAddr: "gb", Address.nullAddr: "null"}
 NONE = -1
+CHUNK = 30000                   # observations per Trace_Addr run
 
 
 # ---- trusted base: descriptor -> concrete argument(s) -> Address -> projection ---------------------------
@@ -413,21 +414,27 @@ class Run:
     def judge(self):
         """Trace_Addr over every observation: TLC evaluates the monitors, one verdict per failing record"""
         chk = self.chk
-        tf = os.path.join(self.wd, "observations.ndjson")
-        with open(tf, "w") as f:
-            for rec, exp in self.recs:
-                f.write(json.dumps(rec) + "\n")
         cfg = "INIT Init\nNEXT Next\nCHECK_DEADLOCK FALSE\n"
-        res = tlc.run_tlc("Trace_Addr", cfg_text=cfg, env={"TRACE_FILE": tf}, timeout=1800, name="Trace_Addr")
-        if res["error_kind"] or not res["finished"]:
-            tlc.machinery_failure("Trace_Addr: %s\n%s" % (res["error"], res["output"][-3000:]))
-        if res["distinct"] != len(self.recs):
-            tlc.machinery_failure("Trace_Addr evaluated %d of %d observations" % (res["distinct"], len(self.recs)))
-        verdicts = tlc.printed_values(res["output"])
-        if len(verdicts) != len(re.findall(r'<<\s*"@@",', res["output"])):
-            tlc.machinery_failure("could not parse every verdict printed by Trace_Addr")
-        chk.extra["trace_validation_states"] = res["distinct"]
-        failing = {v["id"]: v for v in verdicts}
+        failing = {}
+        chk.extra["trace_validation_states"] = 0
+        keep = ("id", "d", "raised", "obs", "pr")           # what the monitors read
+        for lo in range(0, len(self.recs), CHUNK):          # bounded memory per JVM: the records are deserialised at once
+            part = self.recs[lo:lo + CHUNK]
+            tf = os.path.join(self.wd, "observations_%d.ndjson" % lo)
+            with open(tf, "w") as f:
+                for rec, exp in part:
+                    f.write(json.dumps({k: rec[k] for k in keep}) + "\n")
+            res = tlc.run_tlc("Trace_Addr", cfg_text=cfg, env={"TRACE_FILE": tf}, timeout=1800, name="Trace_Addr/%d" % lo)
+            os.remove(tf)
+            if res["error_kind"] or not res["finished"]:
+                tlc.machinery_failure("Trace_Addr: %s\n%s" % (res["error"], res["output"][-3000:]))
+            if res["distinct"] != len(part):
+                tlc.machinery_failure("Trace_Addr evaluated %d of %d observations" % (res["distinct"], len(part)))
+            verdicts = tlc.printed_values(res["output"])
+            if len(verdicts) != len(re.findall(r'<<\s*"@@",', res["output"])):
+                tlc.machinery_failure("could not parse every verdict printed by Trace_Addr")
+            chk.extra["trace_validation_states"] += res["distinct"]
+            failing.update({v["id"]: v for v in verdicts})
         n_ok = 0
         for rec, exp in self.recs:
             d = rec["d"]
